@@ -11,7 +11,7 @@ CONSTANTS
   MaxRetries = 1
   MaxFailures = 2
   UU <- UU_book
-  Ticks = {3}
+  Ticks = {6}
   Pings = {}
   Ages = {}
   BanTimes = {}
